@@ -23,6 +23,10 @@ fn placements(evs: &[Value]) -> Vec<Value> {
 }
 
 fn main() {
+    shredh::run_main(real_main)
+}
+
+fn real_main() {
     shredh::quiet_panics();
     let a = Args::from_env();
     match a.cmd() {
